@@ -30,6 +30,8 @@ def run(tier):
     rep.add_model(r, role="design: all histories of <= 3 runs, crash at every write step")
     rep.add_model(common.neg_check("Cache", "Neg_Cache_key.cfg"), role="negative: key without configuration")
     rep.add_model(common.neg_check("Cache", "Neg_Cache_crash.cfg"), role="negative: in-place write, intolerant load")
+    rep.add_model(common.neg_check("Cache", "Neg_Cache_twin.cfg"),
+                  role="negative: key computed from a projection of the rows (different batches share an entry)")
     rng = random.Random(common.seed() * 13 + 1)
     th = common.tree_hash()
     wd = common.workdir("rec", th, "c12_%s_%d" % (tier, common.seed()), fresh=True)
